@@ -10,7 +10,7 @@ META = {
                  "KeyRef<K>) has user-provided copy operations which do not copy the borrowing member from the source but "
                  "rebuild it from the object's own storage; R19.2 the user-provided assignment of CdnsBlock assigns every data "
                  "member and CdnsBlockRead re-seats its cursors on its own containers; R19.3 copy/move constructors and move "
-                 "assignment delegate to those assignments (no member-wise default bypasses them). R19.4 all stores into a reverse index keyed by a borrowing type (incremental maintenance and the rebuild after a copy) treat equal keys the same way - overwrite or keep-first. R19.1 accepts copy-and-swap: a copy built with the copy constructor and every data member swapped with it. R19.2 follows a copy-aside temporary (constructor initialisers, member stores) through a pairwise swap helper; a validity-guarded memo (cdnsverif/memos.py: a bool member, false initially, only tested and assigned constants, and the members read only where it is true) may be reset instead of copied; the base part may be spelled out member by member. R19.3 also accepts a special member that performs exactly the statements of the copy assignment.",
+                 "assignment delegate to those assignments (no member-wise default bypasses them). R19.4 all stores into a reverse index keyed by a borrowing type (incremental maintenance and the rebuild after a copy) treat equal keys the same way - overwrite or keep-first. R19.1 accepts copy-and-swap: a copy built with the copy constructor and every data member swapped with it. R19.2 follows a copy-aside temporary (constructor initialisers, member stores) through a pairwise swap helper; a validity-guarded memo (cdnsverif/memos.py: a bool member, false initially, only tested and assigned constants, and the members read only where it is true) may be reset instead of copied; the base part may be spelled out member by member. R19.3 also accepts a special member that performs exactly the statements of the copy assignment. R19.5 (= R11.7): a loop over a table's own items that refills its reverse index stores a local counter that starts at 0 and is incremented once per item after the store - every item is entered under its position.",
     "explanation": "Ownership/borrowing rule over record facts (special members implicit/defaulted/user, field types) and "
                    "the bodies of the copy operations. Every obligation is enumerated and must be discharged; with the "
                    "trusted base (std containers copy by value) the rule implies independence of source and copy.",
@@ -479,6 +479,9 @@ def check(run):
                    why_ if ok else "neither delegates to operator= nor initialises its cursor members on its own containers")
     run.floor("R19.3", 12, "special members of the block classes")
     check_index_policy(run, "R19.4")
+    # "rebuilt from the object's own storage" (R19.1) is only a copy if the rebuilt index gives every item its position
+    from .. import tables as _tables
+    _tables.check_reindex_loops(run, "R19.5")
 
 
 OVERWRITE, KEEP_FIRST = "the last of equal keys wins", "the first of equal keys wins"
